@@ -297,7 +297,7 @@ def _cases(draw):
 
 SUBS = [
     Sub("update", check, strategy=_cases, quick=400, thorough=12000, shards=16, shrink_quick=False,
-        floors={"nt": 0.254, "eo": 0.167, "dp": 0.277, "y_binary": 0.2, "y_multi": 0.1, "y_cont": 0.096,
-                "a_multi": 0.08, "pred_hidden": 0.323, "adv_hidden": 0.302, "module": 0.2, "zero_dLA_tensor": 0.08, "zero_dLA_nonzero_dLP": 0.04,
+        floors={"nt": 0.206, "eo": 0.167, "dp": 0.235, "y_binary": 0.2, "y_multi": 0.1, "y_cont": 0.096,
+                "a_multi": 0.08, "pred_hidden": 0.284, "adv_hidden": 0.302, "module": 0.2, "zero_dLA_tensor": 0.08, "zero_dLA_nonzero_dLP": 0.04,
                 "confidently_wrong_row": 0.02}),
 ]
